@@ -296,6 +296,10 @@ def run(ctx):
             ctx.ob("C08.R3", o.where, o.ok, o.what, key=o.key, loc=o.loc, detail=o.detail)
 
     substream_class_checks(ctx, "C08.R3")
+    # a construct that records raw bytes inside a region does it with the region stream's own tell / seek / read (absolute positions mean something
+    # only to those): RawCopy takes its data by seeking back and re-reading, never by slicing a buffer with told positions (shared with C14.R1)
+    from . import C14 as _C14
+    _C14.rawcopy_parse(ctx, "C08.R3")
 
     # positive control: offset taken after the read
     ctl = control_model(
